@@ -157,7 +157,7 @@ func (g *c14Graph) transferStructs(before, st *c14Store, n *c14Node) *c14Store {
 			}
 		}
 	}
-	switch x := n.ast.(type) {
+	switch x := c14EffectAst(n).(type) {
 	case *ast.AssignStmt:
 		if (x.Tok != token.ASSIGN && x.Tok != token.DEFINE) || len(x.Lhs) != len(x.Rhs) {
 			// op-assignment or tuple: a written field is simply forgotten
